@@ -376,7 +376,7 @@ func Check(tr *Trace, w Which) ([]Finding, Classes) {
 				if !e.complete && overflow {
 					cl.Overflow = true
 				}
-				if w.C10 && !e.complete && !overflow {
+				if w.C10 && !w.C19 && !e.complete && !overflow { // with C19 on, the timed decisions above say whether the timeout can have elapsed
 					add("C10", "evicted-without-cause", "op %d (%s): event seq=%d delivered although incomplete and only %d <= max %d events were buffered (timeout %dns cannot have elapsed)", k, op.Kind, e.seq, len(open), h.MaxInFlight, T)
 				}
 			}
